@@ -133,7 +133,8 @@ def observe_all(prog, rng, lanes, keys, addrs=(), with_list=True, read=True):
 
 
 def history_program(rng, length, lanes=ALL_LANES, nkeys=6, ndata=5, removal_weight=0.2,
-                    bulk=False, observe_every=1, full_opts=False, algos=("sha256",), plant=False):
+                    bulk=False, observe_every=1, full_opts=False, algos=("sha256",), plant=False,
+                    stray=False):
     """Random history of keyed writes (several entry points), raw inserts, removals of all kinds,
     with lookups of every key and a listing after every mutating step."""
     prog = small_universe(rng, nkeys, ndata)
@@ -183,13 +184,22 @@ def history_program(rng, length, lanes=ALL_LANES, nkeys=6, ndata=5, removal_weig
                 prog["steps"].append({"op": "clear", "lane": lane})
             else:
                 prog["steps"].append({"op": "remove", "lane": lane, "key": k})
-        elif r < 0.78 and plant:
+        elif r >= 0.90 and stray:
+            # a file that is no key's bucket appears inside the index tree (desktop metadata, an
+            # NFS leftover, a note someone dropped there), next to or above this key's bucket
+            prog["steps"].append({"op": "env_raw", "action": "stray", "key": k,
+                                  "where": rng.choice(["top", "prefix", "leaf"]),
+                                  "name": rng.choice([".DS_Store", "00README.txt", ".nfs000000000a1b2c3d", "Thumbs.db",
+                                                      "zz-notes", "~", "0", "ff.bak"]),
+                                  "bytes": [rng.randrange(256) for _ in range(rng.choice([0, 5, 300]))]})
+        elif plant and (r < 0.78 or r >= 0.88):
             # a record of a foreign key planted in this key's bucket (what a SHA-1 collision
             # would produce), written by the reference writer
             fk = rng.choice(keys)
             d = rng.choice(datas)
+            # (live or a removal marker: a foreign key's removal must not hide this key)
             prog["steps"].append({"op": "env_bucket", "key": k, "mode": "plant",
-                                  "entry": {"key": fk, "sri": [{"a": "sha256", "d": d}],
+                                  "entry": {"key": fk, "sri": None if rng.random() < 0.4 else [{"a": "sha256", "d": d}],
                                             "time": rng.randrange(10 ** 12), "size": rng.choice([rng.randrange(100), 2 ** 53 + 1]),
                                             "metadata": None, "raw_metadata": None}})
         else:
@@ -230,6 +240,20 @@ def chunkings(rng, n, big=False):
     # with empty chunks
     mid = n // 2
     shapes.append([(0, 0), (0, mid), (mid, mid), (mid, n), (n, n)])
+    # increasing chunk sizes; a short header before a long body; a long body before a short trailer
+    if n >= 3:
+        cuts, lo, step = [], 0, (max(1, n // 64) if big else 1)
+        while lo < n:
+            hi = min(n, lo + step)
+            cuts.append((lo, hi))
+            lo, step = hi, step * (4 if big else 10)
+        shapes.append(cuts)
+        h = rng.choice([1, 7, 100, 4096])
+        if h < n:
+            shapes.append([(0, h), (h, n)])
+            shapes.append([(0, n - h), (n - h, n)])
+            if 3 * h < n:
+                shapes.append([(0, h), (h, 2 * h), (2 * h, n - h), (n - h, n)])
     # random cuts
     k = rng.randrange(1, 4 if big else 7)
     pts = sorted({0, n} | {rng.randrange(0, n + 1) for _ in range(k)})
@@ -724,14 +748,16 @@ def link_program(rng, ncases, lanes=ALL_LANES):
             prog["steps"].append({"op": "link_to", "lane": rng.choice(lanes), "target": t0})
         how = rng.choice(["oneshot", "linker", "linker_opts"])
         expect_ok = True
+        # the target named through other spellings of the same file
+        spell = rng.choice(["plain", "plain", "dot", "slashes", "dotdot_real", "dotdot_symlink", "symlink_dir"])
         if how == "oneshot":
-            s = {"op": "link_to", "lane": lane, "target": t, "relative": rel}
+            s = {"op": "link_to", "lane": lane, "target": t, "relative": rel, "spelling": spell}
             if key:
                 s["key"] = key
             prog["steps"].append(s)
         else:
             l = "l%d" % c
-            s = {"op": "open_linker", "lane": lane, "target": t, "relative": rel, "as": l}
+            s = {"op": "open_linker", "lane": lane, "target": t, "relative": rel, "as": l, "spelling": spell}
             if key:
                 s["key"] = key
             if how == "linker_opts":
